@@ -54,6 +54,17 @@ Theorem C04_drain : forall maxc ops s t n,
 Proof. intros maxc ops s t n H Hn. split; [exact (drained_is_init _ _ _ H)|exact (drain_full_capacity _ _ _ _ _ H Hn)]. Qed.
 Print Assumptions C04_drain.
 
+(* k requests of one source arriving together (each waits inside the handler until all are decided): exactly the free
+   slots are filled — the same count as k arrivals taking their turns one after the other in the critical section —
+   so the in-flight count never exceeds the limit and nobody is rejected while a slot is free *)
+Theorem C04_burst : forall maxc ops s f t k,
+  gexec maxc (init, []) ops = Some (s, f) -> 0 <= k ->
+  snd (step maxc s (Burst t k)) = [admitted_count (run_from (step maxc) s (repeat (Arrive t 1) (Z.to_nat k)))] /\
+  fst (step maxc s (Burst t k)) = s /\
+  admitted_count (run_from (step maxc) s (repeat (Arrive t 1) (Z.to_nat k))) = Z.min k (Z.max 0 (maxc - sumfor f t)).
+Proof. exact burst_is_sequential. Qed.
+Print Assumptions C04_burst.
+
 (* non-vacuity: a well-formed history with overlapping requests of two sources, a rejection and a panic *)
 Example C04_history_exists :
   let ops := [Arrive 7 1; Arrive 7 1; Arrive 7 1; Arrive 8 1; Finish 7 1 true; Arrive 7 1; Finish 8 1 false] in
